@@ -22,6 +22,8 @@ def kind_of(seg) -> str:
         t = seg.type
         if t == "indent":
             return "indent" if getattr(seg, "indent_val", 0) > 0 else "dedent"
+        if t == "dedent":
+            return "dedent"
         if t == "end_of_file":
             return "eof"
         if t == "template_loop":
